@@ -227,14 +227,14 @@ def mk_layer(mt, b):
     return {"mediaType": MT_NAME[mt], "digest": "sha256:" + sha(b), "size": len(b)}
 
 
-def gen_pull(rng, fx, name, fault=None):
+def gen_pull(rng, fx, name, fault=None, small=False):
     """a pull of `name` from the fake registry serving a manifest assembled from the shared pools"""
     bodies = [(0, fx.data[rng.choice(["g0", "g1"])])]
-    if rng.random() < 0.6:
+    if not small and rng.random() < 0.6:
         bodies.append((4, rng.choice(SYSTEMS).encode()))
-    if rng.random() < 0.4:
+    if not small and rng.random() < 0.4:
         bodies.append((3, rng.choice(TEMPLATES).encode()))
-    if rng.random() < 0.2:
+    if not small and rng.random() < 0.2:
         bodies.append((7, rng.choice(LICENSES).encode()))
     cfg = rng.choice(CONFIGS)
     man = {"schemaVersion": 2, "mediaType": "application/vnd.docker.distribution.manifest.v2+json",
